@@ -605,3 +605,11 @@ def run(ctx):
              'copy of the size, of a prefix comparison, of a character s[i], or of a successful find) reaches k; a string that '
              'is tested, but only for a shorter length, is a violation', minimum=10)
     common.substr_bound_rule(ctx, 'C20.R18', lambda f: in_scope(f) or f.relfile.startswith(('src/ebusd/mqtthandler.', 'src/ebusd/knxhandler.')), 10)
+    ctx.rule('C20.R20', 's.length() - k used as a position of s wraps around for a shorter s and erase/at/substr then throw '
+             'std::out_of_range: in the client request sources every such use is reached only behind a test that s holds at '
+             'least k characters (an empty token inside quotes is ordinary client input)', minimum=1)
+    common.size_minus_rule(ctx, 'C20.R20', lambda f: f.relfile.startswith(('src/ebusd/request.', 'src/ebusd/mainloop.', 'src/ebusd/network.')), 1)
+    ctx.rule('C20.R21', 'a search that found nothing yields npos, and s.erase/substr/at/insert/replace(npos) throws '
+             'std::out_of_range: a search result used as it is as such a position is reached only behind a test that excludes '
+             'npos (comparing it with length() - 1 does not: for an empty string that difference is npos as well)', minimum=5)
+    common.find_result_rule(ctx, 'C20.R21', lambda f: in_scope(f) or f.relfile.startswith(('src/ebusd/mqtthandler.', 'src/ebusd/request.')), 5)
